@@ -153,7 +153,7 @@ func c25GBPart(c *Ctx) {
 	sets2 := []struct{ ps, cfg []int }{
 		{[]int{0, 1}, []int{0, 0}}, {[]int{1, 0}, []int{3, 0}}, {[]int{9, 11}, []int{1, 1}}, {[]int{11, 9}, []int{0, 3}},
 		{[]int{14, 18}, []int{0, 0}}, {[]int{18, 14}, []int{1, 2}}, {[]int{7, 8}, []int{0, 0}}, {[]int{8, 7}, []int{2, 0}}, {[]int{7, 7}, []int{2, 2}},
-		{[]int{16, 17}, []int{0, 0}}, {[]int{3, 13}, []int{0, 1}}, {[]int{9, 2}, []int{3, 3}},
+		{[]int{16, 17}, []int{0, 0}}, {[]int{19, 20}, []int{0, 2}}, {[]int{3, 13}, []int{0, 1}}, {[]int{9, 2}, []int{3, 3}},
 	}
 	sets3 := []struct{ ps, cfg []int }{{[]int{0, 1, 2}, []int{0, 0, 0}}, {[]int{7, 9, 8}, []int{0, 3, 0}}, {[]int{14, 18, 15}, []int{0, 0, 0}}}
 	explore.Product(c.R, "constructor-built-instances", explore.PartOpt{Workers: 1, Guard: true, SameSig: true,
